@@ -152,8 +152,16 @@ func (f *c14Recv) OnReceive(ctx context.Context, headers api.HeaderMap, buf buff
 		if f.calls == 1 {
 			return api.StreamFilterReMatchRoute
 		}
+	case "M": // asks twice in a row
+		if f.calls <= 2 {
+			return api.StreamFilterReMatchRoute
+		}
 	case "o":
 		if f.calls == 1 {
+			return api.StreamFilterReChooseHost
+		}
+	case "O":
+		if f.calls <= 2 {
 			return api.StreamFilterReChooseHost
 		}
 	}
@@ -200,11 +208,14 @@ var c14Shapes = []c14Shape{
 	{nil, 0},
 	{[]string{"after_route"}, 0},
 	{[]string{"after_choose_host", "after_route"}, 1},
+	// several filters of one phase: re-entries requested from inside a pass that was itself resumed
+	{[]string{"after_route", "after_route", "after_route", "after_route"}, 1},
+	{[]string{"before_route", "after_choose_host", "after_choose_host", "after_choose_host"}, 1},
 }
 
 func c14Engine(c *lab.Ctx) {
 	shape := c14Shapes[c.Batch%len(c14Shapes)]
-	c.Rule(fmt.Sprintf("running MOSN, chain shape by batch (this batch: receive phases %v + %d send filters); every verdict vector over the per-phase alphabets (continue, hijack, hijack with body, direct response, terminate, termination status, stop, re-match, re-choose) for chains <= 4 (sampled above) x 3 protocols, on a plain route and - when a filter answers - again on a route whose retry policy would retry the filter's status; trace checker over filter / upstream / client logs; distinct = (shape, protocol, verdict vector)", shape.phases, shape.sends))
+	c.Rule(fmt.Sprintf("running MOSN, chain shape by batch (this batch: receive phases %v + %d send filters); every verdict vector over the per-phase alphabets (continue, hijack, hijack with body, direct response, terminate, termination status, stop, re-match once / twice, re-choose once / twice) for chains <= 4 (sampled above) x 3 protocols, on a plain route and - when a filter answers - again on a route whose retry policy would retry the filter's status; trace checker over filter / upstream / client logs; distinct = (shape, protocol, verdict vector)", shape.phases, shape.sends))
 	var flt []jmap
 	for i, ph := range shape.phases {
 		flt = append(flt, jmap{"type": "verif_scripted", "config": jmap{"id": i, "phase": ph}})
@@ -231,9 +242,9 @@ func c14Engine(c *lab.Ctx) {
 		a := []string{"c", "h", "d", "D", "t", "T", "s"}
 		switch ph {
 		case "after_route":
-			a = append(a, "m")
+			a = append(a, "m", "M")
 		case "after_choose_host":
-			a = append(a, "o")
+			a = append(a, "o", "O")
 		}
 		return a
 	}
@@ -343,6 +354,9 @@ func c14Engine(c *lab.Ctx) {
 						allowed := 1
 						if id < len(vec) && (vec[id] == "m" || vec[id] == "o") {
 							allowed = 2
+						}
+						if id < len(vec) && (vec[id] == "M" || vec[id] == "O") {
+							allowed = 3
 						}
 						hasStop := false
 						for _, v := range vec {
